@@ -1,6 +1,7 @@
 import Proofs.SrcBlocks
 import Proofs.SrcChain
 import Proofs.SrcCase
+import Proofs.SrcCondErr
 import Proofs.SrcRelRender
 import Proofs.SrcCompileLines
 import Proofs.C10
@@ -582,3 +583,118 @@ example (O : OutPrims) (fs : FS) (env : Env) (out : Bytes) :
   (case_when_else_source c10Prims O {} fs 1 1 env [49] [50, 44, 32, 49] c10A c10B Ws.std Ws.std Ws.std Ws.std
     (.lit (.int .int 1)) [.lit (.int .int 2), .lit (.int .int 1)] (.int .int 1) (by decide) (by decide) (by decide) (by decide)
     rfl rfl (by decide) (by decide) rfl).1 rfl out
+
+/-! ## A condition that FAILS: `{% if c0 %}A0{% elsif c1 %}A1 … {% else %}E{% endif %}`
+
+`if_chain_first_source` / `if_chain_clause_source` / `if_chain_none_source` need every condition up to the selected clause
+to evaluate. The two theorems below are the remaining case of `if_denotation`, read on source text: the first condition
+that is not falsy FAILS with the cause `x` (an evaluation error: an undefined filter, a filter error, a range bound that
+is not an integer …). The render then fails with that cause, located — as `ifTagCompiler` does with
+`parser.WrapError(err, b.body)` — at the line of the tag the condition stands in: the `if` tag for `c0`, the `elsif` tag
+for a later one (not the line of the `if` tag). Neither that body nor any later one is rendered, later conditions are not
+evaluated (they need not evaluate): `written`, the bytes the writer has received when `FRender` returns, is empty. -/
+
+/-- **C10 (the condition of the `if` tag fails), from source bytes.** If `c0` is an expression whose evaluation fails with
+    cause `x`, the block — whatever clauses follow, as long as they compile — fails with `x` at the line of the `if` tag, and
+    nothing has been written. -/
+theorem if_chain_first_cond_err_source (P : Prims) (O : OutPrims) (cfg : Cfg) (fs : FS) (fuel : Nat) (line : Nat) (env : Env)
+    (c0 : Bytes) (w0 : Ws) (A0 : List Item) (rest : List Clause) (wE : Ws) (e0 : Expr) (x : Cause)
+    (hg : GoodDelims (Delims.ofList cfg.delims)) (hc : Clean (Delims.ofList cfg.delims) (chainSrc c0 w0 A0 rest wE))
+    (hp : parseExprSource c0 = .ok e0) (hA : Compiles (Delims.ofList cfg.delims) A0 0)
+    (hrest : ∀ c ∈ rest, c.Good (Delims.ofList cfg.delims))
+    (hv : evaluate P env e0 = .err x) :
+    run P O cfg fs fuel (spell (Delims.ofList cfg.delims) (chainSrc c0 w0 A0 rest wE)) line env = .err ⟨line, true, x, .byCause⟩ ∧
+    written P O cfg fs fuel (spell (Delims.ofList cfg.delims) (chainSrc c0 w0 A0 rest wE)) line env = [] := by
+  rw [chainSrc_eq_blockSrcK] at hc ⊢
+  exact chainK_first_cond_err P O cfg fs fuel line env nmIf (.inl rfl) c0 w0 A0 rest wE e0 x hg hc hp hA hrest
+    (fun h => by cases h) hv
+
+/-- **C10 (the condition of an `elsif` clause fails), from source bytes.** If the condition of the `if` tag and the conditions
+    of the `elsif` clauses `pre` all evaluate falsy, and the next clause `sel` is an `elsif` whose condition `t` is an expression
+    whose evaluation fails with cause `x`, then the block — whatever clauses `post` follow, as long as they compile — fails with
+    `x` located at the line of THAT `elsif` tag (the start line plus the newlines of everything before the tag), and nothing has
+    been written. -/
+theorem if_chain_cond_err_source (P : Prims) (O : OutPrims) (cfg : Cfg) (fs : FS) (fuel : Nat) (line : Nat) (env : Env)
+    (c0 : Bytes) (w0 : Ws) (A0 : List Item) (pre : List Clause) (sel : Clause) (post : List Clause) (wE : Ws) (e0 : Expr) (v0 : GoVal)
+    (t : Bytes) (e : Expr) (x : Cause)
+    (hg : GoodDelims (Delims.ofList cfg.delims))
+    (hc : Clean (Delims.ofList cfg.delims) (chainSrc c0 w0 A0 (pre ++ sel :: post) wE))
+    (hp : parseExprSource c0 = .ok e0) (hA : Compiles (Delims.ofList cfg.delims) A0 0)
+    (hrest : ∀ c ∈ pre ++ sel :: post, c.Good (Delims.ofList cfg.delims))
+    (hv : evaluate P env e0 = .ok v0) (hf : v0.test = false)
+    (hpre : ∀ c ∈ pre, c.Falsy P env)
+    (hsel : sel.cond = some t) (hpe : parseExprSource t = .ok e) (hve : evaluate P env e = .err x) :
+    run P O cfg fs fuel (spell (Delims.ofList cfg.delims) (chainSrc c0 w0 A0 (pre ++ sel :: post) wE)) line env =
+      .err ⟨line + countNL (spell (Delims.ofList cfg.delims) (tg nmIf c0 w0 :: (A0 ++ clauseItems pre))), true, x, .byCause⟩ ∧
+    written P O cfg fs fuel (spell (Delims.ofList cfg.delims) (chainSrc c0 w0 A0 (pre ++ sel :: post) wE)) line env = [] := by
+  rw [chainSrc_eq_blockSrcK] at hc ⊢
+  have hline : line + countNL (spell (Delims.ofList cfg.delims) (tg nmIf c0 w0 :: (A0 ++ clauseItems pre))) =
+      line + countNL ((tg nmIf c0 w0).spell (Delims.ofList cfg.delims)) + countNL (spell (Delims.ofList cfg.delims) A0) +
+        countNL (spell (Delims.ofList cfg.delims) (clauseItemsK nmElsif pre)) := by
+    rw [clauseItemsK_elsif]
+    simp only [spell_cons, spell_append, countNL_append]
+    omega
+  rw [hline]
+  apply run_written_single_fail P O cfg fs fuel _ line env hg hc _ _
+    (chainK_compile _ line nmIf (.inl rfl) c0 w0 A0 (pre ++ sel :: post) wE e0 hp hA hrest (fun h => by cases h))
+  rw [ifBrs_append]
+  simp only [ifBrs]
+  have hcond0 : condRes (mkCtx P O cfg fs fuel).P (⟨env, {}⟩ : RS).env (.expr line e0) = .ok false := by
+    show condRes P env (.expr line e0) = .ok false
+    simp only [condRes, hv, hf]
+  have htest : sel.testAt (line + countNL ((tg nmIf c0 w0).spell (Delims.ofList cfg.delims)) +
+      countNL (spell (Delims.ofList cfg.delims) A0) + countNL (spell (Delims.ofList cfg.delims) (clauseItemsK nmElsif pre))) =
+      .expr (line + countNL ((tg nmIf c0 w0).spell (Delims.ofList cfg.delims)) +
+      countNL (spell (Delims.ofList cfg.delims) A0) + countNL (spell (Delims.ofList cfg.delims) (clauseItemsK nmElsif pre))) e := by
+    simp only [Clause.testAt, hsel, hpe]
+  rw [htest]
+  have h := fun body later => ifB_cond_err (mkCtx P O cfg fs fuel) line ⟨env, {}⟩
+    ((.expr line e0, nodesOf (Delims.ofList cfg.delims) A0 (line + countNL ((tg nmIf c0 w0).spell (Delims.ofList cfg.delims)))) ::
+      ifBrs (Delims.ofList cfg.delims) pre
+        (line + countNL ((tg nmIf c0 w0).spell (Delims.ofList cfg.delims)) + countNL (spell (Delims.ofList cfg.delims) A0)))
+    (.expr (line + countNL ((tg nmIf c0 w0).spell (Delims.ofList cfg.delims)) +
+      countNL (spell (Delims.ofList cfg.delims) A0) + countNL (spell (Delims.ofList cfg.delims) (clauseItemsK nmElsif pre))) e)
+    body later x
+    (by
+      intro b hb
+      rcases List.mem_cons.mp hb with rfl | hb
+      · exact hcond0
+      · exact ifBrs_falsy _ P env pre _ hpre b hb)
+    (by
+      show condRes P env (.expr _ e) = .err x
+      simp only [condRes, hve])
+    (by simp only [CondT.line]; omega)
+  simp only [List.cons_append, CondT.line] at h
+  exact h _ _
+
+/-! ### Non-vacuity of the failing-condition theorems
+
+`(1.."a")` is a range whose upper bound is not an integer: its evaluation fails with a type error in every value layer
+(the real engine: `can't convert string(a) to type int`, a `values.TypeError`).
+`{% if false %}a⏎{% elsif (1.."a") %}b{% else %}c{% endif %}` from line 1: the `elsif` tag stands at line 2, the render fails
+there — not at line 1, the line of the `if` tag — and nothing is written. -/
+def c10Poison : Bytes := [40, 49, 46, 46, 34, 97, 34, 41]
+
+example : spell Delims.default (chainSrc [102, 97, 108, 115, 101] Ws.std [.text [97, 10]]
+      ([] ++ (⟨some c10Poison, Ws.std, [.text [98]]⟩ : Clause) :: [⟨none, Ws.std, [.text [99]]⟩]) Ws.std) =
+    [123, 37, 32, 105, 102, 32, 102, 97, 108, 115, 101, 32, 37, 125, 97, 10,
+     123, 37, 32, 101, 108, 115, 105, 102, 32, 40, 49, 46, 46, 34, 97, 34, 41, 32, 37, 125, 98,
+     123, 37, 32, 101, 108, 115, 101, 32, 37, 125, 99, 123, 37, 32, 101, 110, 100, 105, 102, 32, 37, 125] := by decide
+
+example (P : Prims) (O : OutPrims) (fs : FS) (env : Env) :
+    run P O {} fs 1 (spell Delims.default (chainSrc [102, 97, 108, 115, 101] Ws.std [.text [97, 10]]
+      ([] ++ (⟨some c10Poison, Ws.std, [.text [98]]⟩ : Clause) :: [⟨none, Ws.std, [.text [99]]⟩]) Ws.std)) 1 env =
+      .err ⟨2, true, .typeErr, .byCause⟩ ∧
+    written P O {} fs 1 (spell Delims.default (chainSrc [102, 97, 108, 115, 101] Ws.std [.text [97, 10]]
+      ([] ++ (⟨some c10Poison, Ws.std, [.text [98]]⟩ : Clause) :: [⟨none, Ws.std, [.text [99]]⟩]) Ws.std)) 1 env = [] :=
+  if_chain_cond_err_source P O {} fs 1 1 env [102, 97, 108, 115, 101] Ws.std [.text [97, 10]] [] ⟨some c10Poison, Ws.std, [.text [98]]⟩
+    [⟨none, Ws.std, [.text [99]]⟩] Ws.std (.lit (.bool false)) (.bool false) c10Poison
+    (.range (.lit (.int .int 1)) (.lit (.str [97]))) .typeErr (by decide) (by decide) rfl (by decide) (by decide) rfl rfl
+    (fun _ h => by cases h) rfl rfl rfl
+
+/-- `{% if (1.."a") %}a{% elsif x %}b{% endif %}` started at line 5: the type error at line 5, whatever `x` is -/
+example (P : Prims) (O : OutPrims) (fs : FS) (env : Env) :
+    run P O {} fs 1 (spell Delims.default (chainSrc c10Poison Ws.std [.text [97]] [⟨some [120], Ws.std, [.text [98]]⟩] Ws.std)) 5 env =
+      .err ⟨5, true, .typeErr, .byCause⟩ :=
+  (if_chain_first_cond_err_source P O {} fs 1 5 env c10Poison Ws.std [.text [97]] [⟨some [120], Ws.std, [.text [98]]⟩] Ws.std
+    (.range (.lit (.int .int 1)) (.lit (.str [97]))) .typeErr (by decide) (by decide) rfl (by decide) (by decide) rfl).1
